@@ -115,6 +115,14 @@ async def co_outer(x):
     return await co_inner(x) + 1
 
 
+async def co_rebind(key, retries):
+    key = key.encode()
+    del retries
+    await asyncio.sleep(0)
+    await asyncio.sleep(0)
+    return key
+
+
 def trace_types(a):
     return a
 
@@ -144,6 +152,11 @@ class Label:
     text: str
 
 
+@dataclasses.dataclass
+class Pixel:
+    x: int          # same fields as Point: the generated __init__s have *equal* (not identical) code objects
+
+
 def bare(f):
     def shim(*a, **k):
         return f(*a, **k)
@@ -159,6 +172,12 @@ def render(n):
 def scn_generated_inits():
     Point(1)
     Label("origin")
+
+
+def scn_equal_code():
+    Point(1)
+    Pixel(2)
+    Point(3)
 
 
 def scn_bare_wrapper():
@@ -216,6 +235,10 @@ def scn_coroutine():
     asyncio.run(co_outer(1))
 
 
+def scn_coroutine_rebinds():
+    asyncio.run(co_rebind("k", 3))
+
+
 def scn_trace_types_name():
     trace_types(1)
 
@@ -249,6 +272,8 @@ EXPECT = {
     "scn_generators": [T("gen_simple", {"n": int}, NoneType, int), T("gen_ret", {"n": int}, float, Union[str, None]),
                        T("gen_mixed", {}, NoneType, Union[int, str]), T("gen_simple", {"n": int}, NoneType, int)],
     "scn_coroutine": [T("co_inner", {"x": int}, int), T("co_outer", {"x": int}, int)],
+    "scn_coroutine_rebinds": [T("co_rebind", {"key": str, "retries": int}, bytes)],
+    "scn_equal_code": [T("Point.__init__", {"self": "Point", "x": int}, NoneType), T("Pixel.__init__", {"self": "Pixel", "x": int}, NoneType), T("Point.__init__", {"self": "Point", "x": int}, NoneType)],
     "scn_generated_inits": [T("Point.__init__", {"self": "Point", "x": int}, NoneType), T("Label.__init__", {"self": "Label", "text": str}, NoneType)],
     # the shim itself is not resolvable by name (bound as `render`, named `shim`): only the wrapped function is logged
     "scn_bare_wrapper": [T("render", {"n": int}, str)],
